@@ -466,6 +466,7 @@ pub fn run(ctx: &Ctx) -> PropResult {
         }
     }));
     wls.push(Workload::cases("api_walks", ctx.count(30_000, 1_500_000), |rec, _, rng| super::walk::walk(rec, rng, "C10", super::walk::Family::Offsets)));
+    wls.push(Workload::cases("trait_dispatch_vs_method_syntax", ctx.count(8_000, 200_000), |rec, _, rng| super::ufcs::case(rec, rng, "C10")));
     let out = run_workloads(ctx, wls);
     let mut meta = PropMeta::default();
     meta.exhaustive = true;
@@ -473,7 +474,8 @@ pub fn run(ctx: &Ctx) -> PropResult {
         "Fields in random company: the value carrying the offset and the independently built offset-free value of instant+offset are formatted with the same pattern of 1–7 distinct symbols (any widths, any order, several separators, each symbol also alone) and must print the same; format_rfc3339 at all five precisions must print the date-time of instant+offset (seconds of the offset included) and the zone designator that XXX prints (years 0001–9999). ALL 172 799 offsets x {} stratified instants (era boundary, leap day, year end, range ends ∓1 day, month ends, end-of-day times) + random (instant, offset) pairs incl. the offsets that carry the local date across midnight; per case: set_offset keeps instant/timestamp/==/cmp/*_since/duration, get_offset, all 11 getters and format(\"{}\") equal the model fields of instant+offset, as_offset keeps the displayed fields and moves the instant by −offset. Time: all offsets x {} times (wrap-around both ways). Time additionally at stored times whose local reading is exactly midnight ± 1 ns for each offset; random API walks with judged set_offset/as_offset steps. Offset::from_seconds over every integer in −86 420..=86 420 + extremes; from_hms grids; resolve/resolve_hms return what was given. Non-trivial = the local date differs from the UTC date or the offset has seconds (DateTime); every Time/constructor case. Distinct by input hash. (exhaustive over the offset domain, sampled over instants) as_offset is also applied to receivers that already carry an offset (the same one and a different one): the instant must move by minus the new offset whatever the receiver carried. to_string() is compared with the shifted value's as well; relations of TWO instants (==, cmp, all *_since, duration_between, timestamps) read the same before and after attaching different offsets, half of the pairs closer together than the offsets differ.",
         per, PATTERN, tper
     );
-    meta.required_bins = vec![
+    meta.rule.push_str(" The property's trait methods are also called through the trait (generic code / UFCS) and must agree with method syntax on the same operands (a type may grow inherent twins of its trait methods).");
+    meta.required_bins = vec!["trait-dispatch/compared", 
         "pair/relations-unchanged-by-offsets", "company/one-symbol-alone", "company/no-calendar-field", "company/no-clock-field", "company/calendar-and-clock-fields", "rfc3339/fields-compared",
         "shift/across-0001-01-01", "shift/across-year-end", "shift/across-month-end", "shift/across-midnight", "shift/same-date",
         "offset/with-seconds", "offset/with-minutes", "offset/whole-hours", "time/wraps-below-midnight", "time/wraps-past-midnight", "time/no-wrap",
